@@ -34,12 +34,12 @@ Skip == UNCHANGED jvars
 
 Reset ==
     /\ ph' = "active" /\ jexists' = FALSE /\ jfirstfull' = FALSE /\ segs' = <<>> /\ partial' = FALSE
-    /\ dbnew' = {} /\ dbtorn' = {} /\ dead' = FALSE
+    /\ dbnew' = {} /\ dbtorn' = {} /\ dbapp' = {} /\ dead' = FALSE
 
 \* the abstract state a crash was observed in (for the evidence: which states were really exercised)
 StateClass ==
     <<ph, IF ~jexists THEN "nojournal" ELSE IF segs = <<>> THEN "empty" ELSE IF segs[1].magic THEN "magic" ELSE "nomagic",
-      jfirstfull, partial, Class(dbnew, dbtorn), Len(segs) > 1>>
+      jfirstfull, partial, Class(dbnew, dbtorn, dbapp), Len(segs) > 1>>
 
 Step ==
     /\ l <= Len(Trace)
@@ -49,6 +49,7 @@ Step ==
                 [] e.ev = "jrec"        -> JRec(e.p, e.torn)
                 [] e.ev = "jcount"      -> JHdrCount(e.torn)
                 [] e.ev = "dbwrite"     -> DbWrite(e.p, e.torn)
+                [] e.ev = "dbappend"    -> DbAppend(e.p, e.torn)
                 [] e.ev = "startcommit" -> StartCommit
                 [] e.ev = "finalize"    -> Finalize
                 [] e.ev = "skip"        -> Skip
